@@ -122,11 +122,30 @@ func (s *Service) Handle(ctx context.Context, conn net.Conn) error {
 
 	rcvLine := make(chan string)
 
+	// mails of this connection arrive on a channel of its own (the shared
+	// channel handed them to whichever connection's goroutine read first),
+	// and the goroutine below ends with the session
+	rcvMsg := make(chan Message)
+
+	done := make(chan struct{})
+	defer close(done)
+
+	mux := NewServeMux()
+	mux.HandleFunc(func(msg Message) error {
+		rcvMsg <- msg
+		return nil
+	})
+
+	srv := *s.srv
+	srv.Handler = mux
+
 	// Wait for a message and send it into the eventbus
 	go func() {
 		for {
 			select {
-			case message := <-s.receiveChan:
+			case <-done:
+				return
+			case message := <-rcvMsg:
 				header := []event.Option{}
 
 				for key, values := range message.Header {
@@ -165,7 +184,7 @@ func (s *Service) Handle(ctx context.Context, conn net.Conn) error {
 	}()
 
 	//Create new smtp server connection
-	c := s.srv.newConn(conn, rcvLine)
+	c := srv.newConn(conn, rcvLine)
 	// Start server loop
 	c.serve()
 	return nil
